@@ -36,7 +36,8 @@ ID = "C20"
 LEVEL = "proof"
 ENGINES = ["lean-model", "pyextract", "kopfsim"]
 TIE = ("T: the facts that select the model variant — the orchestrator's done-callback on its ensemble tasks cancels it and the "
-       "failure is re-raised (`fixed`); APINotFoundError is passed over; terminate_redundancies restarts exited tasks; scan_resources "
+       "failure is re-raised (`fixed`); it is attached to `current_tasks - monitored_tasks`, sets of task OBJECTS of the whole ensemble, "
+       "and the bookkeeping is replaced by the current set (`monitorsByTaskObject`, Kopf.Model.C20_Monitor byTask := true); APINotFoundError is passed over; terminate_redundancies restarts exited tasks; scan_resources "
        "gathers and cancels its requests; a root task (the stop-flag checker) awaits the core tasks and their errors are re-raised "
        "after the cleanup activity (`coreWatched := true`, since /repo ed52a1a); the daemon killer marks the memories as exiting and "
        "spawn_daemons honours it (since 1d3a667); the orchestrator shields the stop of its ensemble in a loop (`orchShielded := true`, "
@@ -102,6 +103,12 @@ LEVEL_TEXT = (
     "reachable state, unguarded) and exit_stops_keepalives_last (the first stop spares the keep-alives; during the exit a running, "
     "uncancelled keep-alive stays so under every label but the second stop and its own failure; the second stop is enabled only "
     "when no stream is alive; the orchestrator does not end before both stops). "
+    "FULL, about the bookkeeping behind `fixed` (Kopf.Model.C20_Monitor: the orchestrator attaches its done-callback to current_tasks - "
+    "monitored_tasks, sets of TASK OBJECTS, and replaces the bookkeeping; tie T monitors_by_task_eq): every_generation_monitored "
+    "(after ANY sequence of adjustments — keys dropped, served again, tasks replaced within one adjustment — every task object of the "
+    "ensemble carries the callback: the failure of any generation under any key escalates) and "
+    "by_key_bookkeeping_misses_later_generations_witness (a bookkeeping by KEY that never forgets monitors the first generation only: "
+    "the seeded change C20g; on the real code the regen_fail histories decide). "
     "WITNESS about the current tree: repeated_cancel_skips_cleanup_witness (deviation C20-D4, by design, replayed: a cancellation "
     "that arrives while operator() is already stopping skips the cleanup handlers; everything else is over before the return). "
     "HISTORICAL witnesses (about OLD code = a variant flag false, not about the tree; their corpus witnesses are replayed on real "
@@ -132,6 +139,7 @@ THEOREMS = [("Kopf.Props.C20", "Kopf.C20." + n) for n in [
     "gone_is_not_a_failure", "core_failure_stops_all", "repaired_never_abandoned",
     "head_abandoned_only_by_orchestrator_failure_partial", "orchestrator_own_failure_leaves_model_witness",
     "repeated_cancel_skips_cleanup_witness",
+    "every_generation_monitored", "by_key_bookkeeping_misses_later_generations_witness",
     "historical_stream_failure_lingers_witness", "historical_core_failure_lingers_witness",
     "historical_core_failure_skips_cleanup_witness", "historical_double_cancel_abandons_ensemble_witness",
     "historical_cancel_in_spawn_abandons_tasks_witness", "historical_cancel_while_stopping_abandons_tasks_witness",
@@ -141,7 +149,7 @@ TIE_THEOREMS = [("Kopf.Tie.C20", "Kopf.C20.Tie." + n) for n in [
     "escalates_eq", "head_is_fixed", "ignores_not_found_eq", "restarts_exited_eq", "scan_cancels_children_eq",
     "watches_core_eq", "head_core_variant", "shields_stop_eq", "head_shield_variant", "stops_pingers_last_eq", "sweeps_spawn_eq", "sweeps_stop_eq",
     "head_sweep_variant", "escalates_depletion_eq", "head_depletion_variant", "head_handles_cancellations",
-    "no_spawn_while_exiting_eq", "sweeps_own_failure_eq", "head_own_failure_variant"]]
+    "no_spawn_while_exiting_eq", "sweeps_own_failure_eq", "head_own_failure_variant", "monitors_by_task_eq"]]
 RULE = ("seeded lifecycle histories: 0-2 startup handlers (ok / sleeping / temporary with retries / permanent / retries "
         "exhausted), 0-2 cleanup handlers (ok / sleeping / temporary / permanent), 0-2 daemons (obey / needs cancellation / "
         "swallows one cancellation / exits on its own / polls its flag with asyncio.sleep / needs time to unwind after the "
@@ -173,7 +181,12 @@ RULE = ("seeded lifecycle histories: 0-2 startup handlers (ok / sleeping / tempo
         "orch_fail (the orchestrator's own adjustment of the ensemble raises: open finding C20-F12), pause_stop_race (the API answers "
         "the watch requests of the served resource 0.5 s late; the stream is cut; while the re-watch request is pending a peer of a higher "
         "priority appears and, 0-5 loop iterations apart, the stop comes: the watcher's task is cancelled by the pause-stopper AND by the "
-        "exiting operator). In 15 % of the stop / stream-failure "
+        "exiting operator), regen_fail (a dimension of the orchestrator's ensemble is dropped and served AGAIN under the same key, "
+        "once or twice — the served CRD deleted and created again; HTTP 404 for the watcher alone, restarted in ONE adjustment at the "
+        "next revision; the namespace of a NAMESPACED operator deleted and created again under its name; the peering CRD with its "
+        "object deleted and installed again — the new generation is seen to handle a new object, and then ITS task fails for good: "
+        "in-stream ERROR, HTTP 403 / 5xx on its list/watch, a failing worker, an ERROR on the peering stream, 500s on the keep-alive "
+        "PATCH; ~5 % of the histories). In 15 % of the stop / stream-failure "
         "histories an object is marked for deletion 1/64-1 s before the trigger (its daemons are being stopped the multi-step way); in 25 % of "
         "those with peering a peer of a higher priority appears 0-3 s before the trigger: the operator is PAUSED (or pausing) when the stop / "
         "the failure comes. 20 % of the histories without "
@@ -334,6 +347,26 @@ def extract(ctx: Ctx) -> None:
                 if c.args and isinstance(c.args[0], ast.Name)}
     callbacks = [f for f in inner if f.name in attached]
     attaches = bool(callbacks) and any("get_tasks" in ast.unparse(w) for w in loops)
+    # (1b) WHICH tasks get it — the bookkeeping (`Kopf.Model.C20_Monitor`, variant byTask): the callback is attached in
+    #      `for task in <current> - <monitored>:` where <current> is, in the same loop body, the set of the TASK OBJECTS of the whole
+    #      ensemble (`…get_tasks(…get_keys())`) and <monitored> is REPLACED by <current> after that loop (`<monitored> = <current>`):
+    #      a task object that is new under an old key is in the difference. Any other shape (bookkeeping by key, kept elsewhere,
+    #      only ever added to by key, …) is `false`: then monitors_by_task_eq fails and the `regen_fail` histories decide.
+    by_task = False
+    for w in loops:
+        for blk in [n.body for n in ast.walk(w) if isinstance(n, (ast.While, ast.AsyncWith, ast.With, ast.If, ast.Try))]:
+            for k_, st_ in enumerate(blk):
+                if isinstance(st_, ast.For) and _calls(st_, "add_done_callback") and isinstance(st_.iter, ast.BinOp) \
+                        and isinstance(st_.iter.op, ast.Sub) and isinstance(st_.iter.left, ast.Name) and isinstance(st_.iter.right, ast.Name):
+                    cur, mon = st_.iter.left.id, st_.iter.right.id
+                    cur_ok = any(isinstance(x, ast.Assign) and any(isinstance(t_, ast.Name) and t_.id == cur for t_ in x.targets)
+                                 and "get_tasks" in ast.unparse(x.value) and "get_keys" in ast.unparse(x.value) for x in blk[:k_])
+                    mon_ok = any(isinstance(x, ast.Assign) and any(isinstance(t_, ast.Name) and t_.id == mon for t_ in x.targets)
+                                 and isinstance(x.value, ast.Name) and x.value.id == cur for x in blk[k_ + 1:])
+                    others = [x for x in ast.walk(orch) if isinstance(x, (ast.Assign, ast.AugAssign, ast.AnnAssign))
+                              and any(isinstance(t_, ast.Name) and t_.id == mon
+                                      for t_ in (x.targets if isinstance(x, ast.Assign) else [x.target]))]
+                    by_task = by_task or (cur_ok and mon_ok and len(others) == 2)     # (its initialisation and the replacement)
     # (2) that callback looks at the task's exception and cancels the orchestrator's own task
     own_task = {t.id for n in ast.walk(orch) if isinstance(n, ast.Assign) and "current_task" in ast.unparse(n.value)
                 for t in n.targets if isinstance(t, ast.Name)}
@@ -538,7 +571,7 @@ def extract(ctx: Ctx) -> None:
         rechecks = rechecks or any(isinstance(st_, ast.If) and "worker_error" in ast.unparse(st_.test)
                                    and any(isinstance(x, ast.Raise) for x in ast.walk(st_)) for st_ in after)
     facts = {"orchestratorSweepsOnOwnFailure": sweeps_own_failure, "watcherRechecksWorkerError": rechecks, "spawnTasksSweepsOnCancel": spawn_sweeps, "runTasksSweepsOnCancel": stop_sweeps, "killerMarksExiting": marks, "spawnHonoursExiting": honours, "rootTaskAwaitsCore": root_awaits_core, "coreErrorsAfterCleanup": core_after_cleanup,
-             "orchestratorShieldsStop": shields_stop, "orchestratorStopsPingersLast": stops_pingers_last, "attachesDoneCallback": attaches, "callbackCancelsOrchestrator": cancels, "callbackIgnoresNotFound": ignores404,
+             "orchestratorShieldsStop": shields_stop, "orchestratorStopsPingersLast": stops_pingers_last, "attachesDoneCallback": attaches, "monitorsByTaskObject": by_task, "callbackCancelsOrchestrator": cancels, "callbackIgnoresNotFound": ignores404,
              "reraisesTaskError": reraises, "doneTasksAreRedundant": done_redundant, "scanGathers": gathers,
              "scanCancelsInFinally": cancels_children, "scanUsesAsCompleted": uses_as_completed}
     ctx.extra["extracted_facts"] = facts
@@ -1179,7 +1212,7 @@ def oracle(sc: dict, obs: dict) -> tuple[list[tuple[str, dict]], dict]:
     facts["gone_watchers"] = len(gone)
     # a resource that is gone is not a failure, and when it is served again it is watched again
     for k, i in enumerate(pos["op"]):
-        if log[i][2] == "crd_create":
+        if log[i][2] in ("crd_create", "ns_create"):
             later = [j for j in pos["op"] if j > i and log[j][2] == "create" and log[j][0] >= log[i][0] + 1.0]
             stops = [p for p, _t, _k in trig if p < (later[0] if later else 0)]
             if later and not stops:
@@ -1408,7 +1441,11 @@ TRIGGERS = ["flag", "flag", "cancel", "cancel", "watch_error_kex", "watch_error_
             # a cancellation of operator() while run_tasks WAITS FOR THE HUNG TASKS (a daemon its stopper has given up is one)
             "cancel_in_hung_wait",
             # the operator is PAUSED and STOPPED within the same few loop iterations, while a watch request waits for its response
-            "pause_stop_race"]
+            "pause_stop_race",
+            # a dimension of the orchestrator's ensemble is dropped and served AGAIN under the same key (once or twice); the task of
+            # the NEW generation then fails for good (seeded change C20g: failures escalated for first-generation tasks only)
+            "regen_fail", "regen_fail"]
+REGEN_DIMS = ["crd", "http404", "ns", "peering", "crd", "http404"]
 PHASES = ["startup", "startup_end", "discovery", "spawning", "steady", "inflight"]
 
 
@@ -1431,6 +1468,15 @@ def gen_history(rng: Any, i: int, force: dict | None = None) -> dict:
         peering = False
     if trigger == "pause_stop_race":
         peering = True
+    regen_dim = None
+    if trigger == "regen_fail":
+        # WHICH dimension goes and comes back: the served CRD (its absence noticed by the resource observer: the key is dropped, and
+        # added again), `http404` (the watcher alone meets HTTP 404 for a moment and ends, the resource stays in the insights: the
+        # task is restarted under its key in ONE adjustment, at the next revision — a new CRD of the group makes one),
+        # the NAMESPACE of a namespaced operator (deleted and created again under its name), the PEERING CRD with its object
+        regen_dim = force.get("dim") or (REGEN_DIMS[PHASES.index(force["phase"])] if force.get("phase") in PHASES
+                                         else rng.choice(REGEN_DIMS))
+        peering = regen_dim == "peering" or (regen_dim != "ns" and rng.random() < 0.3)
     handlers: list[dict] = []
     shape: dict[str, Any] = {"trigger": trigger, "peering": peering}
     # startup handlers
@@ -1481,7 +1527,7 @@ def gen_history(rng: Any, i: int, force: dict | None = None) -> dict:
         handlers.append({"kind": "daemon", "id": "dH", "daemon": dict(d), "opts": dict(opts)})
     shape["daemons"] = sorted(dm)
     SPECIAL = ("worker_fail_depletion", "respawn_daemon", "worker_fail_gone", "crd_gone", "cancel_in_spawn", "login_fail",
-               "login_fail_at_stop")
+               "login_fail_at_stop", "regen_fail")
     # a timer (same machinery as daemons: `_runner`, exit stoppers — but no cancellation_timeout can be configured for it:
     # an invocation in flight at the stop is always given up)
     has_timer = trigger not in SPECIAL and rng.random() < 0.25
@@ -1515,7 +1561,7 @@ def gen_history(rng: Any, i: int, force: dict | None = None) -> dict:
     if trigger in ("worker_fail_depletion", "failure_then_stop", "two_failures", "flag_then_cancel", "respawn_daemon",
                    "worker_fail_gone", "login_fail_at_stop"):
         phase = "steady"
-    if trigger in ("cancel_in_hung_wait", "pause_stop_race"):
+    if trigger in ("cancel_in_hung_wait", "pause_stop_race", "regen_fail"):
         phase = "steady"
     if trigger in ("watch_http", "ns_stream", "orch_fail") and phase == "spawning":
         phase = rng.choice(["steady", "inflight"])
@@ -1543,7 +1589,7 @@ def gen_history(rng: Any, i: int, force: dict | None = None) -> dict:
     # a second served kind: its watch stream is one of "the other streams" the orchestrator stops after a stream failure, with a
     # handler in flight on it (the second G of the failure bound is consumed by a depletion, not only by the keep-alive task)
     second = trigger in ("watch_error_kex", "watch_error_crd", "watch_error_peering", "failure_then_stop", "two_failures", "flag",
-                         "cancel", "poison", "pinger_500") and rng.random() < 0.35
+                         "cancel", "poison", "pinger_500", "regen_fail") and rng.random() < 0.35
     if second:
         handlers.append({"kind": "update", "id": "u2", "resource": "kopfwidgets", "script": [],
                          "default": ["sleep", rng.choice([0.5, 1.5]), "ok"]})
@@ -1558,7 +1604,8 @@ def gen_history(rng: Any, i: int, force: dict | None = None) -> dict:
     shape["empty_vault"] = bool(sc.get("empty_vault"))
     # a NAMESPACED operator (namespaces=["ns"] instead of cluster-wide): the namespace observer runs a watch stream of its own,
     # the watchers are per (resource, namespace); without peering (the fake cluster has the cluster-wide peering object only)
-    if trigger == "ns_stream" or (not peering and trigger not in SPECIAL + ("early_stop_peering",) and rng.random() < 0.2):
+    if trigger == "ns_stream" or (not peering and trigger not in SPECIAL + ("early_stop_peering",) and rng.random() < 0.2) \
+            or regen_dim == "ns" or (regen_dim in ("crd", "http404") and not peering and rng.random() < 0.3):
         sc["namespaced"] = ["ns"]
     shape["namespaced"] = bool(sc.get("namespaced"))
     if rng.random() < 0.3 and trigger not in ("worker_fail_depletion", "respawn_daemon", "worker_fail_gone"):
@@ -1594,6 +1641,49 @@ def gen_history(rng: Any, i: int, force: dict | None = None) -> dict:
         ops.append([t, "crd_delete"])
         ops.append([t + gap, "crd_create"])
         ops.append([t + gap + 2.0, "create", "late", 5])
+    elif trigger == "regen_fail":
+        # "When ANY essential task fails — including a watch stream …": also the stream (peering observer, keep-alive) that was
+        # started for a dimension the operator HAD SERVED BEFORE. The dimension goes and comes back `cycles` times; the new generation
+        # is seen to work (a new object is handled); then ITS task fails for good — by an in-stream ERROR event, by HTTP 403 / 5xx on
+        # its list/watch, by a failing worker; the peering tasks by an ERROR on the peering stream or 500s on the keep-alive PATCH.
+        # No objects and no daemons meanwhile, as for crd_gone (the fake API drops the instances of a deleted CRD at once).
+        sc["crd_object"] = True
+        sc["objects"] = []
+        sc["handlers"] = [h for h in handlers if h["kind"] != "daemon"]
+        shape["daemons"] = []
+        # (a stream that is cut or un-paused reconnects after `reconnect_backoff`, 0.1 s by default: virtual times must be dyadic)
+        sc["settings"]["watching.reconnect_backoff"] = 0.125
+        del_op, add_op = {"crd": (["crd_delete"], ["crd_create"]), "http404": (["watch_gone", "kex", 0.25], ["new_crd"]),
+                          "ns": (["ns_delete", "ns"], ["ns_create", "ns"]),
+                          "peering": (["peering_crd_delete"], ["peering_crd_create"])}[regen_dim]
+        cycles = force.get("cycles") or rng.choice([1, 1, 2])
+        tt = t
+        for _ in range(cycles):
+            gap = rng.choice([0.5, 3.0])
+            ops.append([tt, *(del_op if regen_dim != "http404" else ["watch_gone", "kex", gap - 0.25])])
+            ops.append([tt + gap, *add_op])
+            tt += gap + rng.choice([1.0, 2.0])
+        ops.append([tt, "create", "late", 5])
+        tt += rng.choice([1.0, 2.5])
+        how = force.get("how") or (rng.choice(["watch_error_peering", "watch_error_peering", "pinger_500"]) if regen_dim == "peering"
+                                   else rng.choice(["watch_error", "watch_http", "poison"]))
+        if how == "watch_error":
+            ops.append([tt, "watch_error", "kex"])
+        elif how == "watch_http":
+            status = rng.choice([403, 500, 503])
+            ops.append([tt, "watch_http", "kex", status])
+            shape["stream"] = f"kex:{status}"
+        elif how == "poison":
+            ops.append([tt, "poison", "late", 77])
+        elif how == "watch_error_peering":
+            ops.append([tt, "watch_error", "peering"])
+        elif how == "pinger_500":
+            sc["peering_faulted"] = True
+            ops.append([tt, "faults", {"method": "PATCH", "path_contains": "clusterkopfpeerings"}])
+        else:
+            raise ValueError(f"unknown failure {how!r}")
+        shape["regen"] = f"{regen_dim}x{cycles}:{how}"
+        t = tt
     elif trigger == "early_stop_peering":
         # a stop within the first moments: the first keep-alive PATCH is applied by the API server but not yet answered
         sc["peering_response_latency"] = rng.choice([8 / TPS, 0.25, 0.5, 0.5])
@@ -1724,10 +1814,13 @@ def gen_history(rng: Any, i: int, force: dict | None = None) -> dict:
     felt = {"login_fail_at_stop": t, "failure_then_stop": t + 0.25, "two_failures": t + 0.25, "flag_then_cancel": t + 0.5, "cancel_in_spawn": 0.0,
             "worker_fail_gone": t + 2.0, "login_fail": t + 1.0, "pinger_500": t + 60.0 + 8.0, "discovery_500_rescan": t + 8.0, "discovery_500_initial": s_dur + 8.0,
             "startup_fail": s_dur + 1.0, "memo_poison": t + 1.0, "watch_http": t + 6.0, "ns_stream": t + 6.0,
-            "orch_fail": t + 1.0, "cancel_in_hung_wait": t + 12.0, "pause_stop_race": t + 0.375}.get(trigger, t)
+            "orch_fail": t + 1.0, "cancel_in_hung_wait": t + 12.0, "pause_stop_race": t + 0.375,
+            "regen_fail": t + (68.0 if sc.get("peering_faulted") else 6.0)}.get(trigger, t)
     b = bound_s(sc)
     probe = felt + b + 2.0
-    if objects and trigger not in ("crd_gone",):
+    if trigger == "regen_fail":
+        ops.append([probe, "edit", "late", 99])
+    elif objects and trigger not in ("crd_gone",):
         ops.append([probe, "edit", objects[0]["name"], 99])
     sc["ops"] = sorted(ops, key=lambda e: e[0])
     sc["end"] = probe + 8.0
